@@ -152,6 +152,15 @@ def directed(run, prop, tier, seed):
                 (f"*=0x008000\n.dw sc.in, sc.v\n.scope sc {{\nv = {a}\n.db 0\nin:\n}}\n.dw sc.in, sc.v\n", bytes([0x05, 0x80, a, 0, 0, 0x05, 0x80, a, 0])),
                 (f"*=0x008000\ntop := {a}\n.macro m() {{\n.db top\n}}\n{{\ntop := {b}\nm()\n}}\nm()\n", bytes([b, a])),
                 (f"*=0x008000\nout:\n.for i := 0, {c} {{\nloc:\n.dw loc\n}}\n.dw out\n", b"".join((0x8000 + 2 * i).to_bytes(2, "little") for i in range(c)) + b"\x00\x80"),
+                # an outer name looked up from inside a block before the block's own definition exists
+                ("*=0x008000\ndone:\nrts\n{\njmp done\nnop\ndone:\nrts\n}\n", bytes([0x60, 0x4C, 0x05, 0x80, 0xEA, 0x60])),
+                (f"*=0x008000\nv := {a}\n{{\nv = {b}\nlda v\n}}\n", bytes([0xA5, b])),
+                (f"*=0x008000\nmode := 1\n{{\n.if mode {{\n.db 0xAA\n}}\nmode = {b}\n.db mode\n}}\n", bytes([0xAA, b])),
+                # a call-site name spelled like a parameter of the applied macro
+                (f"*=0x008000\nx := {a}\n.macro pair(x, y) {{\n.db x, y\n}}\npair(1, x + 1)\n", bytes([1, a + 1])),
+                # block-valued parameters of the same name in nested applications / a sibling symbol of that name
+                (f"*=0x008000\n.macro inner(chunk) {{\n{{{{chunk}}}}\n}}\n.macro outer(chunk) {{\n.db 0xaa\ninner({{\n.db {a}\n}})\n{{{{chunk}}}}\n}}\nouter({{\n.db {b}\n}})\n", bytes([0xAA, a, b])),
+                (f"*=0x008000\n.macro w(chunk) {{\n{{{{chunk}}}}\n}}\nw({{\n.db {a}\n}})\n{{\nchunk = {b}\n.db chunk\n}}\n", bytes([a, b])),
             ]
         elif prop == "C09":
             fam += [
